@@ -9,6 +9,7 @@ mod mon;
 mod prog;
 mod progsrc;
 mod report;
+mod spec;
 
 use common::*;
 use std::time::Instant;
